@@ -117,9 +117,9 @@ impl Shape {
         // C05/C09 read the spans from sentinel markers; one store in three is configured with sentinel
         // runs of different lengths (1-3 characters each), collapsed again before the hit is parsed, so
         // that position arithmetic depending on the marker lengths is exercised as well
-        let (wa, wb) = if self.0 != Which::Titles && cx.rng.chance(1, 3) { (cx.rng.range(1, 3), cx.rng.range(1, 3)) } else { (1, 1) };
-        let (wide_l, wide_r): (String, String) = ((0..wa).map(|_| S1).collect(), (0..wb).map(|_| S2).collect());
-        let st = St::build(lang, &recs, limit, (&wide_l, &wide_r));
+        let (mut wa, mut wb) = if self.0 != Which::Titles && cx.rng.chance(1, 3) { (cx.rng.range(1, 3), cx.rng.range(1, 3)) } else { (1, 1) };
+        let (mut wide_l, mut wide_r): (String, String) = ((0..wa).map(|_| S1).collect(), (0..wb).map(|_| S2).collect());
+        let mut st = St::build(lang, &recs, limit, (&wide_l, &wide_r));
         if wa != wb {
             cx.count("stores with opening and closing markers of different lengths");
         }
@@ -140,7 +140,16 @@ impl Shape {
             };
             // half-way, the marker store gets another marker pair and the previous query again (output kept from
             // the search before the change would show)
-            let q = if qk == 4 && self.0 == Which::Titles {
+            let q = if qk == 4 && self.0 != Which::Titles && cx.rng.chance(1, 2) {
+                // re-mark the live store (other sentinel run lengths) and send the previous query again
+                wa = cx.rng.range(1, 3);
+                wb = cx.rng.range(1, 3);
+                wide_l = (0..wa).map(|_| S1).collect();
+                wide_r = (0..wb).map(|_| S2).collect();
+                st.store.highlight_with((&wide_l, &wide_r));
+                cx.count("marker pair changed between two searches of the same query");
+                prev_q.clone().unwrap_or(q)
+            } else if qk == 4 && self.0 == Which::Titles {
                 let (a, b) = *cx.rng.pick(gen::MARKERS);
                 ml = a;
                 mr = b;
